@@ -73,7 +73,7 @@ def main():
     if "--only" in sys.argv:
         only = set(sys.argv[sys.argv.index("--only") + 1].split(","))
     items = []
-    for d in sorted(glob.glob(os.path.join(base, "[STUWXZ]??"))):
+    for d in sorted(glob.glob(os.path.join(base, "[ASTUWXZ]??"))):
         sid = os.path.basename(d)
         if only and sid not in only:
             continue
